@@ -138,7 +138,8 @@ def gen_cross(rng: random.Random, cfw: str = "PyArrowTable") -> Dict[str, Any]:
 
 
 def spec_cross_cycle() -> Dict[str, Any]:
-    """The smallest request whose plan deadlocks: D1 = {a1 <- r, a2 <- b2}, D2 = {b1 <- a1, b2 <- r}; no feature of a group
+    """The smallest request whose steps wait for each other (rejected at prepare since /repo 12fe10c; before, the run never
+    returned): D1 = {a1 <- r, a2 <- b2}, D2 = {b1 <- a1, b2 <- r}; no feature of a group
     depends on another one of the same group, so each group is ONE step and the two steps require each other."""
     return {"groups": [
         {"name": "R0", "kind": "root", "cfw": "PyArrowTable", "cols": {"r": [1, 2, 3]}},
